@@ -1,6 +1,7 @@
 import OmbottModel.Model.ErrorPageSpec
 import OmbottModel.Lemmas.ErrorPageServe
 import OmbottModel.Lemmas.ErrorPageShown
+import OmbottModel.Lemmas.AppErrorPage
 /-!
 C20 — Framework error pages never reflect request data unescaped.
 Property theorems only; helper lemmas live in `Lemmas/ErrorPage*.lean`, the notions used in the
@@ -249,6 +250,68 @@ theorem served_error_inert (pr : Char → Bool) (req : Req) (oc : Outcome) (hoc 
             (urlCell_tokenized pr escape_tables_ok.1 url).inert⟩
           simp only [Bool.false_eq_true, if_false]
 
+/-! ### the composed application (`Model/App.lean`): the error pages `Ombott.__call__` really sends -/
+
+/-- the four shapes of `served_error_inert`, as a predicate on a response of this model -/
+def InertResponse (pr : Char → Bool) (req : Req) (r : Resp) : Prop :=
+  r.body = [] ∨
+  (r.ctype = jsonType ∧ ∃ b x t, jsonParse r.body =
+      some [("body".toList, b), ("exception".toList, some x), ("traceback".toList, t)]) ∨
+  (r.ctype = htmlType ∧ ∃ sb ∈ frameworkPages, ∃ url, requestUrl req.env (shownPath req.rawPath) = .ok url ∧
+      r.body = pagePre Gen.errorTemplateLines sb ++ urlCell pr url ++ pagePost Gen.errorTemplateLines sb ∧
+      Inert (urlCell pr url)) ∨
+  (r.ctype = htmlType ∧
+      r.body = criticalPrefix ++ helperEscape (shownPath req.rawPath) ++ criticalSuffix ∧
+      Inert (helperEscape (shownPath req.rawPath)))
+
+/-- **`app_error_pages_inert`: the 404 / 405 (and 400) responses `App.serve` produces are the pages
+of `served_error_inert`.**  For every application whose hooks do not fail and which installs no
+handler of its own for these statuses, every router state and every request environ on which
+`App.serve` is defined: when routing itself ends the request (`App.routedOutcome`: the router
+answers "no route" or "method not allowed", or `PATH_INFO` is not UTF-8), the one `start_response`
+call of `Ombott.__call__` carries the status line and the `Content-Type` of the response `ep` that
+`Model/ErrorPage` describes for this environ, the body bytes sent are the UTF-8 encoding of
+`ep.body` — through the REAL `_handle`, `apply`, `_cast` loop, `default_error_handler` and
+`headerlist` of `Model/Wsgi` (`wsgi_handle_agrees_with_errorpage_handle`) — and `ep` is one of the
+inert shapes: request text (path, query string, Host, forwarded host / scheme) reaches the page
+through `escape` only, a JSON body reads back. -/
+theorem app_error_pages_inert (cfg : App.AppConfig) (R : Router.Router) (q : App.Req) (res : Wsgi.Result)
+    (hs : App.serveW cfg R q = .ok res) (oc : Outcome)
+    (hoc : App.routedOutcome (App.resolved cfg R q) = some oc)
+    (hb : cfg.hooks.before.all (fun h => !h.fails) = true) (ha : cfg.hooks.after.all (fun h => !h.fails) = true)
+    (hno : Wsgi.errHandlerFor cfg.hooks 400 = none ∧ Wsgi.errHandlerFor cfg.hooks 404 = none ∧
+      Wsgi.errHandlerFor cfg.hooks 405 = none) (dbg : Str × Str) :
+    let ep := serve cfg.pr Gen.errorTemplateLines false (App.errorPageReq q) oc false dbg
+    (∃ hl, Wsgi.Event.startResponse ep.status hl false ∈ res.events ∧ ("Content-Type".toList, ep.ctype) ∈ hl) ∧
+    App.bodyBytes res.body = Py.utf8 ep.body ∧
+    InertResponse cfg.pr (App.errorPageReq q) ep := by
+  intro ep
+  have hfw : oc.framework = true := by
+    generalize App.resolved cfg R q = rs at hoc
+    cases rs with
+    | none => simp only [App.routedOutcome, Option.some.injEq] at hoc; subst hoc; rfl
+    | some x =>
+      cases x <;> simp only [App.routedOutcome, Option.some.injEq, reduceCtorEq] at hoc <;> subst hoc <;> rfl
+  obtain ⟨h1, h2⟩ := App.serve_routing_error_page cfg R q res hs oc hoc hb ha hno dbg
+  exact ⟨h1, h2, served_error_inert cfg.pr (App.errorPageReq q) oc hfw false dbg ep rfl⟩
+
+/-- **… and the 500 of a crash.**  When a handler, a statement of it or a hook raises (the program
+alone decides: `handleFlow = .exc`), no custom 500 handler is installed and HTML is asked for, the
+response of `App.serve` is the page `Model/ErrorPage` describes for a crash — whatever the
+exception's class, message and traceback are: with debug off none of them reaches the page. -/
+theorem app_crash_page_inert (cfg : App.AppConfig) (R : Router.Router) (q : App.Req) (res : Wsgi.Result)
+    (hs : App.serveW cfg R q = .ok res) (path : Str) (hpath : utf8Decode q.rawPath = some path)
+    (hcrash : ∀ r, App.wsgiReq cfg R q = .ok r → Wsgi.handleFlow cfg.hooks r = .exc)
+    (hno : Wsgi.errHandlerFor cfg.hooks 500 = none) (hj : isJsonRequested q.accept = false)
+    (cls msg tb : Str) (dbg : Str × Str) :
+    let ep := serve cfg.pr Gen.errorTemplateLines false (App.errorPageReq q) (.raises cls msg tb) false dbg
+    (∃ hl, Wsgi.Event.startResponse ep.status hl false ∈ res.events ∧ ("Content-Type".toList, ep.ctype) ∈ hl) ∧
+    App.bodyBytes res.body = Py.utf8 ep.body ∧
+    InertResponse cfg.pr (App.errorPageReq q) ep := by
+  intro ep
+  obtain ⟨h1, h2⟩ := App.serve_crash_page cfg R q res hs path hpath hcrash hno hj cls msg tb dbg
+  exact ⟨h1, h2, served_error_inert cfg.pr (App.errorPageReq q) _ rfl false dbg ep rfl⟩
+
 /-! ### non-vacuity: concrete instances meeting the hypotheses, and the notions have teeth -/
 section NonVacuity
 
@@ -312,6 +375,52 @@ example : (findSub "<pre>ValueError('<b>')</pre>".toList
     (serve (fun _ => true) Gen.errorTemplateLines true demoReq
       (.raises "ValueError".toList "<b>".toList "tb".toList) false ([], [])).body).isSome = true := by
   decide +kernel
+
+/-! #### the composed application -/
+
+/-- a before hook that sets a header and a cookie; every callback raises -/
+def demoCfg : App.AppConfig :=
+  { hooks := { before := [{ effs := [.setHeader "X-B".toList "1".toList, .setCookie "k".toList "v".toList], res := .ok }],
+               after := [], errHandlers := [] },
+    handlers := fun _ _ => { effs := [], res := .raises },
+    upper := Router.asciiUpper, fenv := fun _ _ => none, pr := fun _ => true }
+
+def demoRouter : Router.Router :=
+  Router.Router.run Router.asciiUpper
+    [.add (fun _ => none) { rule := "/nx".toList, methods := ["POST".toList], handler := 0 }]
+
+def demoAppReq (verb : String) (path : List UInt8) : App.Req :=
+  { id := 1, verb := verb.toList, rawPath := path, env := demoReq.env, accept := none, fileWrapper := false }
+
+/-- hypotheses of `app_error_pages_inert` on three requests with markup in Host and query string:
+`GET /zz` (no route), `GET /nx` (405), an undecodable path (400) — `App.serve` is defined, routing
+ends the request, the hook does not fail, no custom handlers; and the page really sent shows the
+request text escaped only -/
+example :
+    (demoCfg.hooks.before.all (fun h => !h.fails) = true ∧ demoCfg.hooks.after.all (fun h => !h.fails) = true ∧
+     Wsgi.errHandlerFor demoCfg.hooks 400 = none ∧ Wsgi.errHandlerFor demoCfg.hooks 404 = none ∧
+     Wsgi.errHandlerFor demoCfg.hooks 405 = none) ∧
+    ([("GET", [47, 122, 122]), ("GET", [47, 110, 120]), ("GET", [47, 255])].map fun (v, p) =>
+      (App.routedOutcome (App.resolved demoCfg demoRouter (demoAppReq v p))).isSome &&
+      (match App.serveW demoCfg demoRouter (demoAppReq v p) with
+       | .ok res =>
+         (findSub (Py.utf8 "'http://h&lt;b&gt;&#x27;&quot;&amp;/".toList) (App.bodyBytes res.body)).isSome &&
+         (findSub (Py.utf8 "?q=&lt;i&gt;{url}{0}'".toList) (App.bodyBytes res.body)).isSome &&
+         !(findSub (Py.utf8 "<b>".toList) (App.bodyBytes res.body)).isSome
+       | .error _ => false)) = [true, true, true] := by
+  refine ⟨⟨by decide, by decide, by decide, by decide, by decide⟩, by decide +kernel⟩
+
+/-- hypotheses of `app_crash_page_inert`: `POST /nx` reaches the callback, which raises -/
+example :
+    (match App.wsgiReq demoCfg demoRouter (demoAppReq "POST" [47, 110, 120]) with
+     | .ok r => (match Wsgi.handleFlow demoCfg.hooks r with | .exc => true | _ => false)
+     | .error _ => false) = true ∧
+    Wsgi.errHandlerFor demoCfg.hooks 500 = none ∧ isJsonRequested (demoAppReq "POST" [47, 110, 120]).accept = false ∧
+    (match App.serveW demoCfg demoRouter (demoAppReq "POST" [47, 110, 120]) with
+     | .ok res => res.slots.resp.code == 500 &&
+         (findSub (Py.utf8 "<pre>Internal Server Error</pre>".toList) (App.bodyBytes res.body)).isSome
+     | .error _ => false) = true := by
+  refine ⟨by decide +kernel, by decide, by decide, by decide +kernel⟩
 
 end NonVacuity
 
